@@ -168,6 +168,10 @@ def run_case(case):
                     (y.pow(2).mean() + 0.1 * ld.mean()).backward()
                     opt.step()
                     opt.zero_grad()
+                    if not all(bool(torch.isfinite(p_).all()) for p_ in subj.parameters()):
+                        res.inconclusive += 1     # the drawn learning rate made the update diverge: nothing left to compare
+                        res.labels.append("diverged")
+                        return res
                     if cached_call_since_change:
                         stale_window = True
                 elif k == "load":
